@@ -131,11 +131,13 @@ def h_select(u: int, n: int, k: int, p: int, q: int, prov: int, r: int) -> bool:
 
 
 # ---------------------------------------------------------------- histories on a real ModuleTestCluster
-_HG = (1, 8, 5, 2)  # table indices of: A.to_b -> B, make_list_b -> list[B], E.untyped -> Any, B() -> B
-_SUBSETS = ((), (0, 3), (0, 1, 3), (0, 1, 2, 3), (1, 2), (0, 2, 3))
+# table indices of: A.to_b -> B, make_list_b -> list[B], E.untyped -> Any, B() -> B, make_anything -> Any
+_HG = (1, 8, 5, 2, 17)
+# two pairs of generators share a registry key (B: 0 and 3; Any: 2 and 4)
+_SUBSETS = ((), (0, 3), (0, 1, 3), (0, 1, 2, 3), (1, 2), (0, 2, 3), (2, 4), (0, 2, 3, 4))
 # observed runtime types: any of the three for the callables; a constructor is only ever observed to
 # return its own class
-_UPDATES = tuple((gi, ni) for gi in range(3) for ni in range(3)) + ((3, 0),)
+_UPDATES = tuple((gi, ni) for gi in range(3) for ni in range(3)) + ((3, 0),) + tuple((4, ni) for ni in range(3))
 
 
 def _hist_types(uni: T.Universe):
@@ -166,12 +168,12 @@ def _consistent(provider, prov: int, ts, types) -> bool:
 
 
 def h_history(u: int, prov: int, h: int, s: int, o1: int, o2: int, o3: int) -> bool:
-    """Real ModuleTestCluster: add one of six subsets of four generators (two of them generate
-    the same type B), then h operations, each either a query (0..3: type index) or
-    update_return_type (4..13: generator x observed type).
+    """Real ModuleTestCluster: add one of eight subsets of five generators (two generate B, two Any),
+    then h operations, each either a query (0..3: type index) or update_return_type (4..16:
+    generator x observed type).
 
-    pre: 0 <= u <= 1 and 0 <= prov <= 1 and 1 <= h <= 3 and 0 <= s < 6
-    pre: 0 <= o1 < 14 and 0 <= o2 < 14 and 0 <= o3 < 14
+    pre: 0 <= u <= 1 and 0 <= prov <= 1 and 1 <= h <= 3 and 0 <= s < 8
+    pre: 0 <= o1 < 17 and 0 <= o2 < 17 and 0 <= o3 < 17
     pre: (h >= 2 or o2 == 0) and (h >= 3 or o3 == 0)
     post: _
     """
@@ -211,7 +213,19 @@ def _run_history(uni: T.Universe, u: int, prov: int, subset, ops) -> bool:
                 return False
         else:
             cluster.update_return_type(gens[i], new_types[j])
-    return _consistent(cluster.generator_provider, prov, ts, query_types + (uni.sub[1][9], uni.sub[1][4]))
+    if not _consistent(cluster.generator_provider, prov, ts, query_types + (uni.sub[1][9], uni.sub[1][4])):
+        return False
+    # the registry itself: every added generator is registered under its current return type and nowhere else,
+    # i.e. the provider answers like one that is told about the generators (with their final types) from scratch
+    if any(kind == "update" and i not in subset for kind, i, _j in ops):
+        return True  # a generator that was never added was updated: what the registry should hold is not claimed
+    scratch = L.new_provider(prov, ts)
+    for i in subset:
+        scratch.add(gens[i])
+    for t in query_types + (uni.sub[1][9], uni.sub[1][4]):
+        if L.offered(cluster.generator_provider, t) != L.offered(scratch, t):
+            return False
+    return True
 
 
 # (generator index in _HG, query type index) pairs for which the generator is a legitimate offer:
@@ -416,7 +430,7 @@ def obligations(tier: str):
         obs.append(Chx("stale_add", h_stale_add, timeout=T1, fix={"u": u}))
         obs.append(Chx("sound_nested", h_offer_nested, timeout=T1, fix={"law": 0, "u": u}))
         obs.append(Chx("same_nested", h_offer_nested, timeout=T1, fix={"law": 1, "u": u}))
-    obs.append(Chx("history", h_history, timeout=T1, fix={"u": 0, "h": 3}, split={"prov": [0, 1], "s": list(range(6))}))
+    obs.append(Chx("history", h_history, timeout=T1, fix={"u": 0, "h": 3}, split={"prov": [0, 1], "s": list(range(8))}))
     obs.append(Chx("history", h_history, timeout=T1, fix={"u": 1, "h": 2}, split={"prov": [0, 1]}))
     obs.append(Chx("ts_cache", h_ts_cache, timeout=T1, fix={"u": 0, "nc": 6}, split={"tower": [1, 0], "qk": list(range(6))}))
     obs.append(Chx("ts_cache", h_ts_cache, timeout=T1, fix={"u": 1, "tower": 1, "nc": 5}, split={"qk": list(range(6))}))
